@@ -38,7 +38,7 @@ func (c04) Cases(tier string) int {
 func (c04) Describe() core.Info {
 	return core.Info{
 		Level: "exploration",
-		Rule: "typed random programs in which one target rule is perturbed (a head / negated-atom / comparison / function-argument variable replaced by a fresh or wildcard variable, a binding atom dropped, extra negated atoms whose variables are bound by later atoms) and then submitted in every premise order (all permutations for <= 4 premises, 8 random ones otherwise). Judge 1: independent range-restriction judge on the clause as written (order independent): analysis must not accept an unsafe clause. Judge 2: for accepted safe programs, evaluation must not panic or fail with an unbound-variable class of error, all stored atoms are ground, and the result equals the reference model of the clause as written (so an accepted clause evaluated with a literal ignored is caught). Non-trivial: target rule has a negated atom or comparison and >= 2 premises; distinct by program text modulo the premise order.",
+		Rule: "typed random programs in which one target rule is perturbed (a head / negated-atom / comparison / function-argument variable replaced by a fresh or wildcard variable, a binding atom dropped, extra negated atoms whose variables are bound by later atoms; in a quarter of the cases the rule's variables are renamed to X0, X1, ..., the names the library generates itself for wildcards) and then submitted in every premise order (all permutations for <= 4 premises, 8 random ones otherwise). Judge 1: independent range-restriction judge on the clause as written (order independent): analysis must not accept an unsafe clause. Judge 2: for accepted safe programs, evaluation must not panic or fail with an unbound-variable class of error, all stored atoms are ground, and the result equals the reference model of the clause as written (so an accepted clause evaluated with a literal ignored is caught). Non-trivial: target rule has a negated atom or comparison and >= 2 premises; distinct by program text modulo the premise order.",
 		Assumptions: []string{"rejection of a safe clause is not a violation (analysis may insist on a premise order)"},
 		PerCaseTimeout: 120e9,
 	}
@@ -182,6 +182,10 @@ func (c04) Gen(r *rand.Rand, tier string, i int) any {
 		}
 	}
 	rule.Body = body
+	if r.Intn(4) == 0 {
+		// variable names are part of the input: use the names the library generates itself (X0, X1, ...)
+		rule = renameLikeFresh(rule, r.Int63())
+	}
 	p.Rules = append([]gen.ClauseV{}, p.Rules...)
 	p.Rules[target] = rule
 	return c04Case{Prog: p, Target: target, Text: progText(p)}
